@@ -79,3 +79,10 @@ Example C06_wf_example : C06.wf ex_case = true /\ C06.kf ex_case = 0%N
   /\ good_input (C06.c_in ex_case)
   /\ exists ms, stage_list (C06.c_in ex_case) = Ok ms /\ (60 <= length ms)%nat.
 Proof. exact ex_case_facts. Qed.
+Example C06_omit_example :
+  script_ops [bs "dir /opt/x mod=0755"; bs "# c"; bs "omit ""/usr/bin/ba*"""; bs "tbd /usr/bin/bar absent=skip"]
+  = ([OAdd (MkLI TDir (bs "/opt/x") false false false false)] ++ OOmit (bs "/usr/bin/ba*") true
+    :: [OAdd (MkLI TTbd (bs "/usr/bin/bar") false false false true)])%list
+  /\ omit_hit (bs "/usr/bin/ba*") true (bs "/usr/bin/bar") = true
+  /\ omit_hit (bs "/usr/bin/ba*") true (bs "/usr/bin/sub/bar") = false.
+Proof. exact ex_omit_facts. Qed.
